@@ -110,7 +110,8 @@ func makeSys(c string, j Job) Sys {
 			nan := math.NaN()
 			fc := func(a, b float64) int { return anyCmp(a, b) }
 			return &SetSys[float64]{Kind: c, CmpN: "nat", U: []float64{0, 1.5, nan}, Absent: 7.25, Poison: -99, Cmp: fc,
-				Tuples: [][]int{{}, {0}, {1}, {2}, {0, 2}, {2, 2}, {1, 2, 0}}, MaxSize: 4}
+				// (the last tuple: 33 arguments - a bulk path must not lose the members it cannot look up)
+				Tuples: [][]int{{}, {0}, {1}, {2}, {0, 2}, {2, 2}, {1, 2, 0}, append(make([]int, 32, 33), 1)}, MaxSize: 4}
 		}
 		if c == "treeset" && j.s("elem", "") == "float" && j.s("ctor", "") == "default" {
 			return kvSysFromJob(j)
